@@ -268,3 +268,13 @@ SET_DEGREE = mk("degree.setter", params={"self": "obj:KnotVector", "value": "int
                 covers=["value == p", "value == p + 2", "value == p - 1"])
 
 ALL.append((SET_DEGREE, "knotspace", "KnotVector.degree", "degree.setter"))
+
+CONVERT = mk("convert", params={"self": "obj:KnotVector", "cls": "convtype", "tolerance": "real"},
+             ensures=["same(result, self)", "same(self.internal, LAST_NEW)", "len(self.internal.U) == len(U)"],
+             raises={"ValueError": None}, exc_ensures={"*": UNCHANGED},
+             loops={0: dict(invariant=["0 <= it0 and it0 <= len(U)", "len(new_vector) == it0", "same(self.internal, OLD)"], decreases="len(U) - it0")},
+             canary="same(self.internal, OLD)")
+ITRUEDIV = mk("__itruediv__", params={"self": "obj:KnotVector", "other": "real"}, calls=METHOD_CALLS,
+              ensures=["same(result, self)", "other > 0", "all(self.internal.U[i] == U[i] * (1 / other) for i in range(len(U)))"],
+              raises={"AssertionError": "other <= 0", "ZeroDivisionError": "other == 0"}, exc_ensures={"*": UNCHANGED}, canary="same(self.internal, OLD)")
+ALL += [(CONVERT, "knotspace", "KnotVector.convert", None), (ITRUEDIV, "knotspace", "KnotVector.__itruediv__", None)]
